@@ -47,3 +47,7 @@ def cases(rng, tier):
 
 def search(rng, ops, broken):
     return cases(rng, "quick") * 1
+
+
+# tie theorems (substrings of SLV.Gen.*Tie theorem names) this property's operators depend on
+TIE = ['gen_mul_eq', 'gen_comul_eq', 'gen_projection_eq', 'gen_check_simplex_eq', 'gen_check_base_rate_eq', 'BSimplex_try_new', 'gen_try_new_eq', 'gen_new_eq']
